@@ -19,7 +19,7 @@ import sys
 from translate import c17_effects, c17_numeric
 from vlib import core
 
-TARGETS = ["Props/C17.vo"]
+TARGETS = ["Props/C17.vo", "Props/C17_RegexEq.vo"]
 PKG = "diffpy.structure"
 ALLOWED_EXEC_NODE = PKG + ".parsers:getParser"
 COMP = {"<genexpr>", "<listcomp>", "<setcomp>", "<dictcomp>"}
@@ -607,7 +607,7 @@ def run(ctx):
                                   "From DS Require Import Model.C17_Regex.\nDefinition gen_rx_translation : rx := RStar RAny.\n"
                                   "Definition gen_rx_term : rx := RStar RAny.\n")
         if ok:
-            ctx.coq(TARGETS, theorems_in={"Props/C17"})
+            ctx.coq(TARGETS, theorems_in={"Props/C17", "Props/C17_RegexEq"})
     try:
         a = c17_effects.analyse()
     except core.TranslatorRefusal as e:
